@@ -1,6 +1,6 @@
 """T2 for the JSON model (lean/UberjobModel/Model/Json.lean, driver `json enc` / `json dec`).
 
-* ENCODER: for generated JSON values without floats (None, bool, ints of every size class, strings over every code-point
+* ENCODER: for generated JSON values (None, bool, ints of every size class, finite floats as `repr` writes them, strings over every code-point
   class incl. control characters, lone surrogates and surrogate PAIRS, lists and dicts nested up to depth 6, empty
   containers) the text the REAL `JsonFileStore(path).write(v)` leaves in the file must be, code point for code point, the
   model's `render` with the options the translator read off the source (`json enc gen gen`); and the model's other layouts
@@ -9,8 +9,9 @@
   with characters deleted / inserted / replaced from a JSON-biased alphabet, and a fixed list of boundary texts (every
   escape, upper/lower-case hex, surrogate pairs and halves, duplicate keys, leading zeros, `-0`, white space of every kind,
   trailing commas, BOM, raw control characters, truncated literals, extra data) - must be the model's `parse`: the same
-  value (type-strict, dict order included) or a rejection on both sides.  Inputs on which the model answers `float` (float
-  syntax: outside the model) are skipped and counted.
+  value (type-strict, dict order included; a float by the float its text denotes, sign of zero included) or a rejection on
+  both sides.  Inputs on which the model answers `float` (one of the three non-finite literals: outside the model) are skipped
+  and counted.
 """
 from __future__ import annotations
 
@@ -31,14 +32,65 @@ def show_str(s):
     return "#%d:%d" % (len(s), sc.hash_nats(ord(c) for c in s))
 
 
-def has_float(v):
+def has_nonfinite(v):
+    """NaN / Infinity / -Infinity somewhere inside: the three float literals the model leaves out"""
     if isinstance(v, float):
-        return True
+        return v != v or v in (float("inf"), float("-inf"))
     if isinstance(v, (list, tuple)):
-        return any(has_float(x) for x in v)
+        return any(has_nonfinite(x) for x in v)
     if isinstance(v, dict):
-        return any(has_float(x) for x in v.values())
+        return any(has_nonfinite(x) for x in v.values())
     return False
+
+
+def from_tokens(ts):
+    """the driver's prefix notation -> a Python value (floats through float(text))"""
+    def go(i):
+        t = ts[i]
+        if t == "n":
+            return None, i + 1
+        if t == "t":
+            return True, i + 1
+        if t == "f":
+            return False, i + 1
+        if t.startswith("i"):
+            return int(t[1:]), i + 1
+        if t.startswith("F"):
+            return float(t[1:]), i + 1
+        if t == "S":
+            k = int(ts[i + 1])
+            return "".join(chr(int(c)) for c in ts[i + 2:i + 2 + k]), i + 2 + k
+        if t == "A":
+            k, j, out = int(ts[i + 1]), i + 2, []
+            for _ in range(k):
+                x, j = go(j)
+                out.append(x)
+            return out, j
+        if t == "O":
+            k, j, out = int(ts[i + 1]), i + 2, {}
+            for _ in range(k):
+                key, j = go(j)
+                x, j = go(j)
+                out[key] = x
+            return out, j
+        raise ValueError(t)
+    v, j = go(0)
+    if j != len(ts):
+        raise ValueError("trailing tokens")
+    return v
+
+
+def same(a, b):
+    """type-strict, order-strict equality; floats by their repr (so that 0.0 and -0.0 differ)"""
+    if type(a) is not type(b):
+        return False
+    if type(a) is float:
+        return repr(a) == repr(b)
+    if type(a) is list:
+        return len(a) == len(b) and all(same(x, y) for x, y in zip(a, b))
+    if type(a) is dict:
+        return list(a.keys()) == list(b.keys()) and all(same(a[k], b[k]) for k in a)
+    return a == b
 
 
 def term(v):
@@ -51,6 +103,10 @@ def term(v):
         return ["f"]
     if type(v) is int:
         return ["i%d" % v]
+    if type(v) is float:
+        if has_nonfinite(v):
+            raise TypeError(v)
+        return ["F" + repr(v)]
     if type(v) is str:
         return ["S", str(len(v))] + [str(ord(c)) for c in v]
     if type(v) is list:
@@ -85,9 +141,12 @@ def gen_value(rng, depth=0):
             return None
         if c == 1:
             return rng.random() < 0.5
-        if c in (2, 3):
+        if c == 2:
             return rng.choice([0, 1, -1, 9, 10, -10, 99, 100, 2 ** 31, -2 ** 63, 10 ** 30, -(10 ** 40) + 1, rng.randint(-10 ** 6, 10 ** 6),
                                rng.randint(-10 ** 25, 10 ** 25)])
+        if c == 3:
+            return rng.choice([0.0, -0.0, 1.0, 1.5, -2.5e-07, 1e300, 1e+16, 1e16 + 2.0, 5e-324, 1.7976931348623157e308, 0.1, 100.0, 1e22, 1e21,
+                               123456789.123, rng.uniform(-1e9, 1e9), rng.random() * 10 ** rng.randint(-30, 30), float(rng.randint(-1000, 1000))])
         return gen_str(rng, 12)
     if k < 0.76:
         return [gen_value(rng, depth + 1) for _ in range(rng.choice([0, 1, 1, 2, 3, 5]))]
@@ -158,7 +217,7 @@ def explore_json(ctx, rng, stats, disagreements, n_values, n_mut):
     if ctx.driver is None:
         return
     values = [gen_value(rng) for _ in range(n_values)]
-    values += [[], {}, [[]], {"": {}}, "", "\ud800\udc00", {"\ud800": "\udc00"}, sc.nested_json(60), 10 ** 4000, -(10 ** 200), ["\x7f\x80"],
+    values += [[1.5, -0.0, 1e300, {"x": 5e-324}], 2.5, [], {}, [[]], {"": {}}, "", "\ud800\udc00", {"\ud800": "\udc00"}, sc.nested_json(60), 10 ** 4000, -(10 ** 200), ["\x7f\x80"],
                {"k": [1, {"z": None, "a": [True, False]}]}]
     # ---- encoder: the real store's file == render with the source's options
     lines, want, meta = [], [], []
@@ -211,17 +270,22 @@ def explore_json(ctx, rng, stats, disagreements, n_values, n_mut):
         if got == "float":
             stats["json_decoder_float_skipped"] = stats.get("json_decoder_float_skipped", 0) + 1
             continue
-        if r[0] == "ok" and not has_float(r[1]):
-            try:
-                w = "ok " + " ".join(term(r[1]))
-            except TypeError:
-                w = "ok ?"
-        elif r[0] == "ok":
-            w = "ok (a float the model did not announce)"
+        agree = None
+        if r[0] == "ok":
+            w = "ok " + json.dumps(r[1])[:200]
+            if got.startswith("ok "):       # (a literal too large for a double is read as inf; so is the model's text, by float())
+                try:
+                    agree = same(from_tokens(got[3:].split()), r[1])
+                except (ValueError, IndexError):
+                    agree = False
+            else:
+                agree = False
         else:
             w = r[0] if r[0] == "err" else "raise " + str(r[1])
+            agree = got == w
         stats["json_decoder_comparisons"] = stats.get("json_decoder_comparisons", 0) + 1
         stats["json_decoder_" + ("accepts" if r[0] == "ok" else "rejects")] = stats.get("json_decoder_" + ("accepts" if r[0] == "ok" else "rejects"), 0) + 1
-        if got != w:
+        stats["json_decoder_floats"] = stats.get("json_decoder_floats", 0) + (" F" in got or got.startswith("ok F"))
+        if not agree:
             disagreements.append({"layer": "json-decoder", "case": {"text": [ord(c) for c in t][:400]}, "impl": w[:300], "model": got[:300]})
             return
